@@ -1,5 +1,5 @@
 """Contracts for helper functions of fastavro/_schema_py.py used by the validators and writers."""
-from pyvc.contracts import target, R, implies
+from pyvc.contracts import target, R, implies, same
 import spec.core as S
 import spec.avro as A
 
@@ -61,3 +61,21 @@ class to_pcf:
             and fo.data == old.fo.data + '{"name":"' + schema["name"] + '","type":"record","fields":['
             + K.PCF_FIELDS(schema["fields"], _i)),
     }
+
+
+@target(SP, "parse_schema", behavior="parsed")
+class parse_schema_parsed:
+    """C12: parsing an already parsed schema returns it unchanged and merges the name table it carries into the
+    caller's, entry by entry.  (Data values have no object identity in the logic: 'unchanged' is equality of
+    value here; that the very same object comes back is checked by the bounded stand-in.)"""
+    types = dict(schema="dict", named_schemas="dict", expand="bool", _write_hint="bool", _force="bool",
+                 _ignore_default_error="bool")
+    requires = lambda schema, named_schemas, expand, _force: (
+        "__fastavro_parsed" in schema and "__named_schemas" in schema and isinstance(schema["__named_schemas"], dict)
+        and not _force and not expand)
+    modifies = ["named_schemas"]
+    ensures = lambda schema, named_schemas, result: (
+        same(result, schema)
+        and named_schemas == K.MERGED(old.named_schemas, schema["__named_schemas"], len(schema["__named_schemas"])))
+    loops = {0: lambda schema, named_schemas: (
+        named_schemas == K.MERGED(old.named_schemas, schema["__named_schemas"], _i))}
